@@ -1136,6 +1136,15 @@ def closure_of_type(m, clo_tid):
         return None
     path = M.norm_path(ty["path"])
     cands = [i for i in m.p.insts if i["local"] and i["body"] and i["npath"] == path]
+    if len(cands) > 1:
+        # several monomorphic copies (a closure inside a generic function): the one whose
+        # environment parameter has exactly this closure type
+        def env_ty(i):
+            tid = i["body"]["locals"][1]["ty"] if i["body"]["argc"] >= 1 else None
+            while tid is not None and m.ty(tid)["k"] in ("ref", "ptr"):
+                tid = m.ty(tid)["to"]
+            return tid
+        cands = [i for i in cands if env_ty(i) == clo_tid]
     return cands[0] if len(cands) == 1 else None
 
 
